@@ -1648,6 +1648,15 @@ def explore(ctx, rep, rng, tier, tmpdir, events):
                     done.append(op)
                     continue
             kind, via = classify(op, status, detail, done)
+            if kind == "unknown" and via == "no-frame" and op == "open" and m.get("pred") == "fuel":
+                # no Python frame of the package was on the stack when the budget ran out (one huge allocation in progress), and
+                # the parser model gives the resource answer for this header: name the declared count the mutation enlarged
+                import re as _re
+                big = [lab for lab, v in _re.findall(r"([a-z.]+): -?\d+ -> (\d+)", m["name"]) if int(v) >= 2 ** 24]
+                if any(lab == "files.numfiles" for lab in big):
+                    kind, via = "alloc", "numfiles"
+                elif any(lab.startswith("sub.") for lab in big):
+                    kind, via = "alloc", "substreams-count"
             what_key = (kind, via)
             if (kind, via) in REPAIRED:
                 via = "regressed:" + via          # repaired in the tree: never matches an entry of the time before the repair
@@ -1726,9 +1735,23 @@ def explore(ctx, rep, rng, tier, tmpdir, events):
             r = again.get(c["id"], {})
             still = r.get("child") or any(o[1] not in ("ok", "exc") for o in r.get("ops", []))
             if still:
+                # what the event IS is judged on the undisturbed re-run: under load the first run may have hit the wall-clock
+                # budget before the RSS watcher or without a Python frame to show (e.g. in the middle of one huge allocation)
+                key2 = key
+                if not r.get("child") and key[0] == "unknown":
+                    done2 = []
+                    for op2, st2, det2, _secs in r.get("ops", []):
+                        if st2 in ("ok", "exc"):
+                            done2.append(op2)
+                            continue
+                        k2 = classify(op2, st2, det2, done2)
+                        if k2[0] != "unknown":
+                            key2 = (k2[0], "regressed:" + k2[1]) if k2 in REPAIRED else k2
+                            what += "; on the undisturbed re-run the event is %s/%s" % key2
+                        break
                 rep.violation(what + "; reproduced alone with a budget of %.0f s per call" % (budget * 5),
                               {"kind": "seq", "a": c["a"], "pw": c["pw"], "ops": c["ops"], "mode": c["mode"], "budget": budget * 5},
-                              match_keys={"kind": key[0], "via": key[1]})
+                              match_keys={"kind": key2[0], "via": key2[1]})
             else:
                 rep.extra.setdefault("not_reproduced", []).append({"case": m["name"], "event": list(key)})
 
